@@ -290,6 +290,33 @@ func checkUnpackForgets(rep *Reporter, c *hcase, wire []byte) {
 	})
 }
 
+// checkFieldReuse: a composite FIELD unpacked on its own (SetBytes through Message.Field) after
+// the history, then a write of one member below it: the field must look like the same two steps
+// on a new message ("the same holds for composite fields unpacked on their own").
+func checkFieldReuse(rep *Reporter, c *hcase, forgetOp, partialOp string, id int) {
+	ops := with(c.ops, forgetOp, partialOp)
+	line := c.line(ops, "")
+	safely(rep, line, func() {
+		used := c.replay(c.ops)
+		fresh := c.replay(nil)
+		r1 := impl.ApplyOp(used, forgetOp)
+		r2 := impl.ApplyOp(fresh, forgetOp)
+		rep.Case(line)
+		if r1 != r2 || r1 != "ok" {
+			return
+		}
+		impl.ApplyOp(used, partialOp)
+		impl.ApplyOp(fresh, partialOp)
+		t1, t2 := impl.ValueTree(used.Cur.GetField(id)).String(), impl.ValueTree(fresh.Cur.GetField(id)).String()
+		s1, _ := used.Cur.GetString(id)
+		s2, _ := fresh.Cur.GetString(id)
+		if t1 != t2 || s1 != s2 {
+			rep.Viol("a composite field unpacked on its own (SetBytes) into a used message, then written below, differs from the same steps on a new message", line,
+				fmt.Sprintf("used: %s %q | new: %s %q", t1, s1, t2, s2))
+		}
+	})
+}
+
 // latent: what GetString reports for every field of the spec, present or not (a field that is
 // not part of the unpacked message must look the way it looks in a new message)
 func latent(c *hcase, m *iso8583.Message) string {
@@ -461,6 +488,17 @@ func runC10(t gen.Tier, r *gen.Rng, rep *Reporter) {
 			ops := append(randomFixedOps(r, k, false), rs)
 			checkUnpackForgets(rep, fixedCase(ops), minMsg)
 			checkUnpackForgets(rep, fixedCase(ops), b)
+			for _, fg := range gen.HForget() {
+				if !strings.HasPrefix(fg, "set:") {
+					continue
+				}
+				id := atoi(strings.Split(fg, ":")[1])
+				for _, pt := range gen.HPartial() {
+					if strings.HasPrefix(pt, fmt.Sprintf("mar:%d:", id)) || strings.HasPrefix(pt, fmt.Sprintf("jd:doc(f(%d,", id)) {
+						checkFieldReuse(rep, fixedCase(ops), fg, pt, id)
+					}
+				}
+			}
 		}
 	}
 	forCases(t, r, t.N(300, 6000), t.N(300, 6000), t.N(250, 6000), func(c *hcase) {
